@@ -166,6 +166,10 @@ def run(case, ctx, rng):
             ctx.eq('ctr:dec(enc)==M', call(lambda: new().dec(C)), M, **det)
             ctx.eq('ctr:dec(enc)==M', call(lambda: obj.dec(C)), M, same_object=True, **det)
             ctx.eq('ctr:enc==spec', call(lambda: obj.enc(M)), want, second_call=True, **det)
+            if case['r'] in (0, 1):
+                from vmon.core import mutable_arg
+                ob = new()
+                mutable_arg(ctx, 'ctr:enc==spec', (lambda buf: bytes(ob.enc(buf))), M, want, one_object=True, **det)
             # the counter is re-configured on the live object: the next message starts from the new counter block
             n2 = rng.randbytes(n - h); c2 = rng.getrandbits(8 * h)
             if hasattr(obj.counter, 'setup'):
